@@ -118,6 +118,10 @@ class WireCore(object):
     def close(self):
         self.connected = False
         self.cur = None
+        if self.cfg.get("close_raises_once"):
+            self.cfg["close_raises_once"] = False
+            self._log("x", 0, None, "OSError")
+            raise OSError("[mem] close failed (injected)")
         self._log("x", 0, None, "ok")
 
     def write(self, data, timeout):
@@ -209,6 +213,21 @@ class WireCore(object):
                 self.clock.advance(1e-3)
                 self._log("r", n, timeout, 0)
                 return b""
+            if kind == "endless":
+                # the device never stops producing output on the operation's own stream (logcat-like) and never closes it
+                if self.cur is None:
+                    if self.foreign_due is None:
+                        self.foreign_due = self.clock.time() + stall.get("delta", 0.05)
+                    wait = self.foreign_due - self.clock.time()
+                    if wait > 0:
+                        if timeout is not None and max(timeout, 0) < wait:
+                            return self._nothing(n, timeout, idx)
+                        self.clock.advance(wait)
+                    self.foreign_due = None
+                    st = self.sim.streams[-1]
+                    self.foreign_i += 1
+                    pkt = wire.Packet(wire.A_WRTE, st.rid, st.lid, b"line %d\n" % self.foreign_i)
+                    self.cur = [bytearray(wire.encode(pkt.cmd, pkt.arg0, pkt.arg1, pkt.data)), pkt, "foreign", self.delivered_packets]
             if kind == "foreign":
                 if self.cur is None:
                     # traffic for other streams takes time to arrive: the next packet is due `delta` after the previous one
